@@ -123,6 +123,8 @@ REWRITES = {
     "enumerate": (r"(\w+(?:\.\w+)*)\.iter\(\)\.enumerate\(\)", r"vit::venumerate(\1.iter())",
         "`.iter().enumerate()` pairs each item with its 0-based position (own iterator type: vstd has no specification for Enumerate)"),
     "underscore_param2": (r"\(&self, _: ", r"(&self, _unused: ", "a parameter pattern `_` is an unnamed (unused) parameter"),
+    "pub_fields": (r"(?m)^(\s+)(?!pub\b)([a-z_]\w*)(\s*:\s)", r"\1pub \2\3", "field visibility is irrelevant in a single file"),
+    "pub_struct": (r"(?m)^(struct|enum) ", r"pub \1 ", "item visibility is irrelevant in a single file"),
     "pub_crate": (r"\bpub\(crate\)\s+", r"pub ", "visibility is irrelevant in a single file"),
     "deref_clone": (
         r"(\w+)\.deref\(\)\.clone\(\)", r"vrc::deref_clone(&\1)", "Rc<T>::deref().clone() clones the pointee"),
